@@ -202,4 +202,16 @@ def c18_4(c: Ctx) -> None:
         c.fail(u, 'TimeoutError is never raised by expect', 'expect() does not raise TimeoutError when nothing matches in time')
 
 
+
+@ob('C18.5', 'WMW/MPT', 'once expect() has removed its temporary handler from self.handlers the bus never delivers to it again: the applicable-handler lookup is recomputed from the live '
+    'registry on every event, never memoised (same obligation as in C01.1)')
+def c18_5(c: Ctx) -> None:
+    from .c01 import check_lookup_not_memoised, collect_lookups
+
+    u = c.unit(SVC, 'EventBus._get_applicable_handlers')
+    lookups = collect_lookups(c, u)
+    c.floor(len(lookups), 2, 'lookups of self.handlers')
+    check_lookup_not_memoised(c, u, lookups)
+
+
 OBLIGATIONS = ob.obs
